@@ -82,6 +82,7 @@ def main() -> int:
     pkgs, owner = [], {}
     shadow_pkgs: set = set()
     param_local_modules: set = set()
+    capture_pkgs: set = set()
     for j, res in zip(jobs, rs):
         label, feats = info[j["id"]]
         if res.get("_error") or res.get("exc") or not res.get("accepted"):
@@ -98,6 +99,9 @@ def main() -> int:
         if shadowing:
             ev.count("packages_with_a_class_named_like_a_template_import")
             shadow_pkgs.add(Path(res["outdir"]).name)
+        from ._ops import derived_local_capture
+        if derived_local_capture(res.get("manifest") or {}):
+            capture_pkgs.add(Path(res["outdir"]).name)
         for e_ in (res.get("manifest") or {}).get("endpoints") or []:
             if {p_["python_name"] for loc_ in e_["params"].values() for p_ in loc_} & {"kwargs", "response", "headers", "cookies", "params"}:
                 param_local_modules.add(f"{Path(res['outdir']).name}/api/{e_['tag']}/{e_['module']}.py")
@@ -159,6 +163,20 @@ def main() -> int:
             except Exception:
                 pass
             stem = rel.rsplit("/", 1)[-1][:-3]
+            # mechanisms recognisable from the offending line (each a listed finding with its own witness)
+            if "/models/" in rel:
+                mech_ = None
+                if code == "assignment" and re.search(r"= (self\.\w+\.isoformat\(\)\.encode\(\)|str\(self\.\w+\)(\.encode\(\))?)$", src_line) and "tuple[None, bytes, str]" in msg:
+                    mech_ = "multipart_union_member_not_a_tuple"
+                elif code == "comparison-overlap" and src_line.endswith("is not UNSET:") and pkg in capture_pkgs:
+                    mech_ = "derived_local_captures_property"
+                elif code == "no-redef" and re.match(r"^\w+_item: ", src_line):
+                    mech_ = "list_item_variable_annotated_twice"
+                elif code == "arg-type" and re.search(r"\.append\(\w+_item\)$", src_line) and "Literal[" in msg:
+                    mech_ = "nested_list_of_nullable_const_items"
+                if mech_:
+                    vd.violation(f"mypy:{mech_}", f"{label}: {rel}:{ln}: {msg} | {src_line}", {"doc": j["doc"] if j else None, "cfg": j.get("cfg") if j else None, "mypy": line})
+                    continue
             if rel in param_local_modules:
                 # C18's finding seen by the type checker: a parameter named like a local the endpoint template assigns (kwargs = _get_kwargs(...))
                 vd.violation("mypy:parameter_named_like_template_local", f"{label}: {rel}:{ln}: {msg} | {src_line}", {"doc": j["doc"] if j else None, "cfg": j.get("cfg") if j else None, "mypy": line})
